@@ -521,6 +521,11 @@ def e2e_scenarios(tier: str, seed: int) -> list:
     out.append(mk("S6", ["stuck", "panic"], ["unknown", "sat_model"], early_exit=True, preempt="stuck-confirm"))
     out.append(mk("S6", ["stuck", "failflag"], ["unsat", "sat_model"], early_exit=True, preempt="stuck-confirm"))
     out.append(mk("S6", ["stuck", "panic"], ["unknown", "sat_model"], early_exit=False))
+    # S9: the synchronous confirmation query of a stuck path is still running when a counterexample arrives (--early-exit kills it)
+    for st_ in ("stuck", "stuckcallee"):
+        for r in ("unsat", "unknown", "sat_abs"):
+            out.append(mk("S9", [st_, "failflag"], [r, "sat_model"], delays=[2 * D, D], early_exit=True))
+    out.append(mk("S9", ["stuck", "panic", "success"], ["unsat", "sat_model", None], delays=[2 * D, D, 0.0], early_exit=True))
     # S8: fewer solver threads than potential-violation queries (queries wait in the pool's queue), with --early-exit
     for n, (outs, reps) in enumerate([(["panic", "failflag"], ["unsat", "sat_model"]), (["panic", "failflag"], ["sat_model", "unsat"]),
                                       (["panic", "failflag"], ["unsat", "unknown"]), (["panic", "failflag", "panic"], ["unsat", "unsat", "sat_model"]),
